@@ -19,10 +19,13 @@ import (
 	"strings"
 	"time"
 
+	"github.com/go-jose/go-jose/v3"
+
 	"github.com/ory/fosite"
 	"github.com/ory/fosite/compose"
 	"github.com/ory/fosite/zz_verif_h/world"
 	"github.com/ory/fosite/zz_verif_h/zz"
+	"github.com/ory/fosite/zz_verif_h/zzjwt"
 )
 
 const (
@@ -322,4 +325,61 @@ func ZZ_C17_par() {
 // prefix is then a foreign one.
 func ZZ_C17_prefix_T() {
 	run(2, false, true)
+}
+
+// ZZ_C17_par_request_object: an OpenID Connect push whose parameters come in a signed request object
+// (`request=<JWT>`, key registered inline for the client). "The push endpoint ... refuses requests that
+// themselves contain a request_uri": also when the request_uri is a CLAIM of the request object; without
+// it the push is accepted and the pushed (request-object) values are what the authorization proceeds with.
+func ZZ_C17_par_request_object() {
+	priv, pub := zzjwt.GenKey(zzjwt.RSA)
+	w := world.New(world.Options{
+		Tweak: func(cfg *fosite.Config) { cfg.PushedAuthorizeContextLifespan = lifespan },
+		Extra: []compose.Factory{compose.PushedAuthorizeHandlerFactory},
+	})
+	c := w.Store.Clients["c1"].(*fosite.DefaultClient)
+	w.Store.Clients["c1"] = &fosite.DefaultOpenIDConnectClient{
+		DefaultClient:                 c,
+		JSONWebKeys:                   &jose.JSONWebKeySet{Keys: []jose.JSONWebKey{{Key: pub, KeyID: "k1", Algorithm: "RS256", Use: "sig"}}},
+		RequestObjectSigningAlgorithm: "RS256",
+		TokenEndpointAuthMethod:       "client_secret_post",
+	}
+	const inner = "state-from-the-request-object"
+	claims := map[string]interface{}{
+		"state": inner, "response_type": "code", "client_id": "c1", "redirect_uri": "https://c1.example/cb", "scope": "openid photos",
+	}
+	smuggle := zz.Choice("request_uri-claim", 3)
+	switch smuggle {
+	case 1:
+		claims["request_uri"] = defaultPrefix + "c21tdWdnbGVk"
+	case 2:
+		claims["request_uri"] = "https://c1.example/request.jwt"
+	}
+	tok := zzjwt.Sign(zzjwt.Spec{Alg: "RS256", Kid: "k1", Key: priv, Claims: claims})
+	form := url.Values{
+		"client_id": {"c1"}, "client_secret": {world.Secret1}, "response_type": {"code"}, "redirect_uri": {"https://c1.example/cb"},
+		"scope": {"openid photos"}, "state": {"outer-state-0123456789"}, "request": {tok},
+	}
+	ar, err := w.Provider.NewPushedAuthorizeRequest(w.Ctx, world.Post(form))
+	zz.Observe("push.err", world.ErrName(err))
+	if smuggle != 0 {
+		zz.Cover("push:request-object-with-request_uri-claim", true)
+		zz.Assert(err != nil, "push: a request object that itself contains a request_uri is refused")
+		return
+	}
+	zz.Assert(err == nil, "push: a validly signed request object is accepted")
+	if err != nil {
+		return
+	}
+	presp, err := w.Provider.NewPushedAuthorizeResponse(w.Ctx, ar, world.NewSession("peter"))
+	zz.Assume(err == nil)
+	for _, stored := range w.Store.PARSessions {
+		zz.Assert(stored.GetRequestForm().Get("request_uri") == "", "push: the stored request carries no request_uri")
+	}
+	use, err := w.Provider.NewAuthorizeRequest(w.Ctx, world.Get(url.Values{"client_id": {"c1"}, "request_uri": {presp.GetRequestURI()}, "state": {"front-channel-state-0123"}}))
+	zz.Assert(err == nil, "use: the pushed request starts an authorization")
+	if err == nil {
+		zz.Assert(use.GetState() == inner, "use: proceeds with the pushed (request object) state")
+		zz.Cover("use:request-object-values-honoured", true)
+	}
 }
